@@ -225,7 +225,15 @@ func runPending(raw json.RawMessage) interface{} {
 			}
 			if !ok && out.PropOK {
 				from := int64(-9)
+				for _, a := range answers[i] {
+					if int64(a.tag) == t {
+						from = int64(a.from)
+					}
+				}
 				for j := range answers {
+					if from != -9 {
+						break
+					}
 					for _, a := range answers[j] {
 						if int64(a.tag) == t {
 							from = int64(a.from)
